@@ -1125,6 +1125,22 @@ func (h *c37) checkEligibility(rt *rapid.T, c *thCase, run [2]bool, got [2]*big.
 						fmt.Sprintf("IsSlotLeaderWithMode result %+v err=%v, expected eligible=%v threshold=%s", res, err, want, got[i].Text(16)), cs)
 				}
 			}
+			// and once per case with a real VRF key: whatever output the signer produces,
+			// eligibility must be "its leader value < threshold"
+			if c.Pool > 0 && tier == 0 && oi == 0 && len(out) == 64 && out[0]%4 == 0 {
+				signer, err := lc.NewSimpleVRFSigner(out[:32])
+				if err != nil {
+					rt.Fatalf("harness fault: NewSimpleVRFSigner: %v", err)
+				}
+				res, err := lc.IsSlotLeaderWithMode(uint64(out[1])<<8|uint64(out[2]), out[32:], c.Pool, c.Total, c.F, signer, mode)
+				rec.Eval()
+				if err != nil || res == nil || len(res.Output) != 64 || res.Threshold == nil || res.Threshold.Cmp(got[i]) != 0 ||
+					res.Eligible != (leaderValue(res.Output, i).Cmp(T) < 0) {
+					rec.Fail(rt, "eligibility:IsSlotLeaderWithMode:real-signer:"+thModeName[i],
+						fmt.Sprintf("IsSlotLeaderWithMode with a real VRF key: result %+v err=%v, threshold %s", res, err, got[i].Text(16)), cs)
+				}
+				rec.Class("real_vrf_signer_elections")
+			}
 			if want {
 				rec.Class("eligible:" + thModeName[i])
 			} else {
